@@ -276,6 +276,7 @@ Proof. vm_compute. reflexivity. Qed.
     VOL = ["liter", "gallon", "teaspoon", "tablespoon", "fluid ounce", "cup", "pint", "quart", "gill", "barrel", "hogshead", "bushel", "peck", "acre-foot", "cord", "stere", "minim"]
     ARE = ["hectare", "acre", "section", "barn"]
     def q(a, b, m=("int", "1", "1")): return {"op": "in_unit", "a": {"m": list(m), "u": a}, "b": b}
+    exp0names = set(impl("export_worker.py", {})["unit_by_name"])
     plain = [q([[None, x, 1]], [[None, y, 1]]) for fam_ in (VOL, ARE) for x in fam_ for y in fam_ if x != y]
     plain += [{"op": "eq", "a": {"m": ["int", "1", "1"], "u": [[None, "gallon", 1]]}, "b": {"m": ["int", "768", "1"], "u": [[None, "teaspoon", 1]]}},
               {"op": "eq", "a": {"m": ["int", "1", "1"], "u": [[None, "barrel", 1]]}, "b": {"m": ["float", "63", "2"], "u": [[None, "gallon", 1]]}}]
@@ -290,6 +291,15 @@ Proof. vm_compute. reflexivity. Qed.
     for x in ARE:
         for y in ARE:
             if x != y: between.append(q([[None, x, 1], [None, "foot", 1]], [[None, y, 1], [None, "meter", 1]]))
+    # squares and cubes across the long chains of length units (league ... twip), then the plain conversions between their roots
+    LEN = ["league", "mile", "furlong", "chain", "rod", "yard", "foot", "inch", "pica", "point", "twip", "cable", "fathom", "link", "meter", "nautical mile"]
+    LEN = [x for x in LEN if x in exp0names]
+    for x in LEN:
+        for y in c.rng.sample(LEN, 4):
+            if x != y:
+                between.append(q([[None, x, 3]], [[None, y, 3]])); between.append(q([[None, x, 2]], [[None, y, 2]]))
+    lenplain = [q([[None, x, 1]], [[None, y, 1]]) for x in LEN for y in LEN if x != y]
+    plain += (c.rng.sample(lenplain, 80) if c.tier == "quick" else lenplain)
     hp = impl("convsys_worker.py", {"systems": True, "cases": between + plain})["results"][len(between):]
     fp = impl("convsys_worker.py", {"systems": True, "cases": plain})["results"]
     ndiff = 0
